@@ -65,48 +65,60 @@ def inconclusive_exit(pid, reason):
     return 2
 
 
-def run_symgo(pid, tier, h, work, overlay):
+def harness_job(tier, h):
     name = h["name"]
     pkg, fn = name.split(".")
     t = dict(h.get("opts", {}))
     t.update(h.get(tier, {}))
-    out = os.path.join(work, name + ".json")
-    cmd = [SYMGO, "-dir", HARNESS_DIR, "-overlay", overlay, "-pkg", "verifharness/" + pkg,
-           "-harness", f"verifharness/{pkg}.{fn}", "-out", out,
-           "-timeout-ms", str(t.get("timeout_ms", 20000 if tier == "quick" else 120000)),
-           "-unwind", str(t.get("unwind", 64)),
-           "-traces", str(t.get("traces", 40 if tier == "quick" else 200)),
-           "-trace-every", str(t.get("trace_every", 1)),
-           "-preempt", str(t.get("preempt", 0))]
-    if t.get("alloc_limit"):
-        cmd += ["-alloc-limit", str(t["alloc_limit"])]
-    if t.get("pool_adversarial"):
-        cmd += ["-pool-adversarial"]
-    if t.get("budget_s"):
-        cmd += ["-budget-s", str(t["budget_s"])]
-    if t.get("max_paths"):
-        cmd += ["-max-paths", str(t["max_paths"])]
-    for k, v in t.get("params", {}).items():
-        cmd += ["-param", f"{k}={v}"]
+    job = {"harness": f"verifharness/{pkg}.{fn}", "params": t.get("params", {}),
+           "unwind": t.get("unwind", 64), "alloc_limit": t.get("alloc_limit", 0), "preempt": t.get("preempt", 0),
+           "pool_adversarial": bool(t.get("pool_adversarial")), "budget_s": t.get("budget_s", 0), "max_paths": t.get("max_paths", 0),
+           "traces": t.get("traces", 40 if tier == "quick" else 200), "trace_every": t.get("trace_every", 1),
+           "timeout_ms": t.get("timeout_ms", 20000 if tier == "quick" else 120000), "no_summaries": bool(t.get("no_summaries"))}
+    return job, t
+
+
+def run_group(gi, tier, hs, work, overlay):
+    """One symgo process (one load of the repository's SSA) runs a group of harnesses sequentially."""
+    jobs, ts = [], []
+    pkgs = []
+    for h in hs:
+        j, t = harness_job(tier, h)
+        jobs.append(j)
+        ts.append(t)
+        p = "verifharness/" + h["name"].split(".")[0]
+        if p not in pkgs:
+            pkgs.append(p)
+    jf = os.path.join(work, f"jobs-{gi}.json")
+    out = os.path.join(work, f"group-{gi}.json")
+    json.dump(jobs, open(jf, "w"))
+    cmd = [SYMGO, "-dir", HARNESS_DIR, "-overlay", overlay, "-jobs", jf, "-out", out]
+    for p in pkgs:
+        cmd += ["-pkg", p]
     t0 = time.time()
     r = subprocess.run(cmd, cwd=HARNESS_DIR, env=ENV, capture_output=True, text=True)
     wall = time.time() - t0
-    res = None
+    got = []
     if os.path.exists(out):
         try:
-            res = json.load(open(out))[0]
+            got = json.load(open(out))
         except Exception:
-            res = None
-    if res is None:
-        res = {"harness": name, "paths": 0, "ok_paths": 0, "decisions": 0, "queries": 0, "violations": [],
-               "inconclusive": ["engine failed: " + (r.stdout + r.stderr)[-400:]], "covers": {}, "traces": [],
-               "samples": [], "functions_encoded": [], "intrinsics": [], "stubs": [], "assumptions": [],
-               "exhaustive": False, "solver_time_s": 0, "queries_sat": 0, "queries_unsat": 0, "queries_unknown": 0}
-    res["harness"] = name
-    res["proc_wall_s"] = wall
-    res["params"] = t.get("params", {})
-    res["alloc_limit"] = t.get("alloc_limit", 0)
-    return res
+            got = []
+    results = []
+    for i, h in enumerate(hs):
+        if i < len(got):
+            res = got[i]
+        else:
+            res = {"harness": h["name"], "paths": 0, "ok_paths": 0, "decisions": 0, "queries": 0, "violations": [],
+                   "inconclusive": ["engine failed: " + (r.stdout + r.stderr)[-600:]], "covers": {}, "traces": [],
+                   "samples": [], "functions_encoded": [], "intrinsics": [], "stubs": [], "assumptions": [],
+                   "exhaustive": False, "solver_time_s": 0, "queries_sat": 0, "queries_unsat": 0, "queries_unknown": 0}
+        res["harness"] = h["name"]
+        res["proc_wall_s"] = res.get("wall_s", 0)
+        res["params"] = ts[i].get("params", {})
+        res["alloc_limit"] = ts[i].get("alloc_limit", 0)
+        results.append(res)
+    return results
 
 
 _runner_lock = None
@@ -199,7 +211,7 @@ def main():
     ap.add_argument("--tier", default=os.environ.get("VERIF_TIER", "quick"))
     ap.add_argument("--replay")
     ap.add_argument("--only", help="run only harnesses whose name contains this")
-    ap.add_argument("--jobs", type=int, default=int(os.environ.get("VERIF_JOBS", "8")))
+    ap.add_argument("--jobs", type=int, default=int(os.environ.get("VERIF_JOBS", "6")))
     ap.add_argument("--keep", action="store_true")
     args = ap.parse_args()
     seed = int(os.environ.get("VERIF_SEED", "0") or 0)
@@ -222,11 +234,23 @@ def main():
     if args.only:
         hs = [h for h in hs if args.only in h["name"]]
 
-    # symbolic runs in parallel with the native runner build
-    with concurrent.futures.ThreadPoolExecutor(max_workers=max(1, args.jobs)) as ex:
+    # symbolic runs (a few processes, each loading the SSA once) in parallel with the native runner build
+    ngroups = max(1, min(args.jobs, len(hs)))
+    order = sorted(range(len(hs)), key=lambda i: -hs[i].get("weight", 1))
+    groups = [[] for _ in range(ngroups)]
+    loads = [0] * ngroups
+    for i in order:
+        g = loads.index(min(loads))
+        groups[g].append(i)
+        loads[g] += hs[i].get("weight", 1)
+    groups = [g for g in groups if g]
+    with concurrent.futures.ThreadPoolExecutor(max_workers=len(groups) + 1) as ex:
         fut_runner = ex.submit(build_runner, work, overlay)
-        futs = [ex.submit(run_symgo, pid, tier, h, work, overlay) for h in hs]
-        results = [f.result() for f in futs]
+        futs = [ex.submit(run_group, gi, tier, [hs[i] for i in g], work, overlay) for gi, g in enumerate(groups)]
+        results = [None] * len(hs)
+        for g, f in zip(groups, futs):
+            for i, res in zip(g, f.result()):
+                results[i] = res
         runner = fut_runner.result()
 
     known = load_known()
@@ -333,6 +357,8 @@ def main():
                            "unknown": r.get("queries_unknown"), "solver_time_s": round(r.get("solver_time_s", 0), 2),
                            "wall_s": round(r.get("proc_wall_s", 0), 1), "params": r.get("params"), "unwind": r.get("unwind"),
                            "exhaustive": r.get("exhaustive"), "witnesses_hit": r.get("covers"), "ssa_steps": r.get("ssa_steps"),
+                           "paths_not_natively_validatable": r.get("paths_not_natively_validatable", 0),
+                           "summarised_pure_callees": r.get("summarised_pure_callees"),
                            "violations": len(r["violations"])} for r in results],
             "queries": sum(r["queries"] for r in results),
             "solver": "z3 4.8.12 (one incremental process per harness, push/pop mirrors the decision stack)",
